@@ -8,7 +8,7 @@
    independently of how the code enumerates paths.                          *)
 From Coq Require Import String.
 From Coq Require Import NArith ZArith List Bool.
-From V Require Import Base.UString Model.Markings Spec.MarkingSpec Proofs.MarkingsC08.
+From V Require Import Base.UString Model.Markings Spec.MarkingSpec Proofs.MarkingsC08 Proofs.MarkingsSyntax.
 Import ListNotations.
 
 (* ---- the full theorem, for every variant in which the walking deviations are repaired ---- *)
@@ -109,3 +109,21 @@ Theorem witnesses_accepted_when_repaired :
   validate_selector cfg_repaired [(u "x_m", VList [VList [VStr (u "a"); VStr (u "b")]])] (u "x_m.[0].[1]") = true.
 Proof. exact MarkingsC08.witnesses_accepted_when_repaired. Qed.
 Print Assumptions witnesses_accepted_when_repaired.
+
+(* ---- selector syntax: the recogniser that mirrors SELECTOR_REGEX (re.match, so one trailing newline
+        is tolerated) accepts exactly the selector grammar of Spec/MarkingSpec.v;
+        upper_of c = true iff the variant admits A-Z in keys after the first segment ---- *)
+Theorem selector_syntax : forall c s, selector_syntax_ok c s = true <-> selector_text (upper_of c) s.
+Proof. exact MarkingsSyntax.selector_syntax. Qed.
+Print Assumptions selector_syntax.
+
+Theorem selector_syntax_examples :
+  selector_syntax_ok cfg_pinned (u "external_references.[0].url") = true /\
+  selector_syntax_ok cfg_pinned (u "id") = true /\
+  selector_syntax_ok cfg_pinned (u "ab") = false /\
+  selector_syntax_ok cfg_pinned (u "labels.[x]") = false /\
+  selector_syntax_ok cfg_pinned (u "labels..a") = false /\
+  selector_syntax_ok cfg_pinned (u "x_m.Bar") = false /\
+  selector_syntax_ok cfg_repaired (u "x_m.Bar") = true.
+Proof. exact MarkingsSyntax.selector_syntax_examples. Qed.
+Print Assumptions selector_syntax_examples.
